@@ -381,7 +381,7 @@ func writeEvidence(p *Property, tier string, seed int, w *World, rep *Report, ct
 	if ev.Assumptions == nil {
 		ev.Assumptions = []string{}
 	}
-	cov["explanation"] = p.Explanation
+	cov["explanation"] = p.Explanation + explanationAddenda[p.ID]
 	cov["checker_cmd"] = fmt.Sprintf("/verif/bin/gkvcheck -property %s -tier %s", p.ID, tier)
 	cov["trusted_base"] = append([]string{"go/types, go/ssa (golang.org/x/tools v0.29.0)", "closed-world check of DESIGN §3.A", "user callbacks are behaviourally neutral"}, p.Trusted...)
 	if rep != nil {
